@@ -47,6 +47,17 @@ def gen(rs: int, tier: str, index: int) -> dict:
         if m.get("kind", "valid") == "valid" and r.random() < 0.5:
             m["labels"] = {"li": ["int", str(r.randint(-5, 10**6))], "ls": ["str", r.choice(["", "x", "héllo", "a b"])],
                            "lb": ["bool", r.random() < 0.5], "lf": ["float", repr(r.choice([0.5, -1.25, 1e10]))]}
+    if r.random() < 0.1 and s["messages"]:
+        # the task name of template 0 is registered again half-way with a function of the other kind (sync <-> async)
+        times = sorted(m["send_at_us"] for m in s["messages"])
+        s["ops"].append({"op": "reregister", "task": 0, "at_us": times[len(times) // 2]})
+        s["tasks"][0]["ctx"] = False
+        for m in s["messages"]:
+            if m.get("task") == 0:
+                m.pop("timeout", None)
+                for a in m.get("attempts", []):
+                    if a.get("out", ["ret"])[0] in ("requeue",):
+                        a["out"] = ["ret"]
     return s
 
 
@@ -105,8 +116,9 @@ def oracle(script: dict, run: Any) -> List[Violation]:
             continue
         if timed_out:
             tmo_us = int(round(tmo * 1e6))
-            if not (fe[1] + tmo_us <= fx[1] <= fe[1] + tmo_us + MARGIN_PER_STEP_US + stall_margin):
-                out.append(Violation("C07/timeout-wrong-instant", f"delivery {d}: body cancelled at t={fx[1]}us, entered at {fe[1]}us, timeout {tmo}s"))
+            fc = h.first(d, "fn_cancelled") or fx        # the instant the cancellation reached the body (its cleanup may take longer)
+            if not (fe[1] + tmo_us <= fc[1] <= fe[1] + tmo_us + MARGIN_PER_STEP_US + stall_margin):
+                out.append(Violation("C07/timeout-wrong-instant", f"delivery {d}: body cancelled at t={fc[1]}us, entered at {fe[1]}us, timeout {tmo}s"))
         nores = (not timed_out) and outc[0] in ("nores", "requeue")
         if nores:
             if saves:
